@@ -1397,6 +1397,19 @@ package badger
 //@   assert[list-of-current-key] before call KeyToList : arg0 == ret(KeyCopy#2) && arg1 == itr
 //@   assert[tagged-and-buffered] before call KVToBuffer#1 : arg0 == kv && kv.StreamId == streamId && arg1 == outList
 
+// DB.Ranges: the split keys from tables, table offsets and memtables are all collected before
+// they are sorted, and the ranges are built from the sorted list: each range starts where the
+// previous one ended, the first has no left end and the last no right end.
+//@ func (*DB).Ranges
+//@   props C25
+//@   light
+//@   assert[table-offsets-before-sorting] before call keySplits : !called(Strings#1)
+//@   assert[memtables-before-sorting] before call mtSplits : !called(Strings#1)
+//@   assert[sorted-list-becomes-ranges] before call SafeCopy#1 : called(Strings#1)
+//@   assert[sort-the-collected-splits] before call Strings : arg0 == splits
+//@   assert[range-ends-at-split-key] before call SafeCopy#1 : len(arg0) == 0
+//@   assert[next-starts-at-same-key] before call SafeCopy#2 : len(arg0) == 0
+
 // ---- streams (C25): one snapshot per run ----
 
 // Every producer goroutine of one Stream run must read the same snapshot. With a caller-given
